@@ -7,7 +7,7 @@ V = os.path.dirname(os.path.dirname(os.path.abspath(__file__)))
 cid, header_file, imports = sys.argv[1], sys.argv[2], sys.argv[3]
 out = ['(* ' + open(header_file).read().strip() + ' *)', imports, 'From RecordUpdate Require Import RecordUpdate.', 'Import RecordSetNotations.', '']
 for spec in sys.argv[4:]:
-    rel, names = spec.split(':')
+    rel, names = spec.split(':', 1)
     src = open(os.path.join(V, 'coq', 'theories', rel + '.v')).read()
     for nm in names.split(','):
         comment = ''
